@@ -547,6 +547,13 @@ func (c *clientCore) handle(ws []string) string {
 			case "connack":
 				sp := byte(atoi(answer[1]))
 				conn.Write([]byte{0x20, 0x02, sp, byte(atoi(answer[2]))})
+			case "connacks":
+				// the same CONNACK in two segments (fixed header and flags, then - a moment later - the
+				// return code): a reader must not take a short read for the whole packet
+				sp := byte(atoi(answer[1]))
+				conn.Write([]byte{0x20, 0x02, sp})
+				time.Sleep(30 * time.Millisecond)
+				conn.Write([]byte{byte(atoi(answer[2]))})
 			case "bad":
 				conn.Write([]byte{0x20, 0x02, 0x00, 0x09}) // return code out of range
 			case "other":
@@ -725,7 +732,7 @@ func genClient(seed int64, n int, tier string, w *bufio.Writer) {
 		if r.Intn(8) == 0 {
 			switch r.Intn(4) {
 			case 0:
-				emit("connect connack 0 %d", 1+r.Intn(5))
+				emit("connect %s 0 %d", pick(r, []string{"connack", "connack", "connacks"}), 1+r.Intn(5))
 			case 1:
 				emit("connect bad")
 			case 2:
@@ -738,7 +745,7 @@ func genClient(seed int64, n int, tier string, w *bufio.Writer) {
 			done++
 			continue
 		}
-		emit("connect connack %d 0", r.Intn(2))
+		emit("connect %s %d 0", pick(r, []string{"connack", "connack", "connack", "connacks"}), r.Intn(2))
 		done++
 		// Automatic identifiers.  One episode in five starts with the process-wide counter a few
 		// steps before its low 16 bits wrap (also far up in the 64-bit range), so that identifiers
